@@ -304,3 +304,81 @@ func reIncludes(sub string, sups []reSup) reInclusion {
 	}
 	return reInclusion{Holds: true, States: len(nodes)}
 }
+
+// reIntersects decides whether the languages of all the patterns have a string in common, on the
+// product of their lazy DFAs, and returns one.
+func reIntersects(pats ...string) (bool, string, string) {
+	var ps []*reProg
+	for _, pt := range pats {
+		a, err := compileRe(pt)
+		if err != nil {
+			return false, "", err.Error()
+		}
+		ps = append(ps, a)
+	}
+	alpha := reAlphabet(ps)
+	type node struct {
+		d      []dstate
+		parent int
+		via    rune
+	}
+	keyOf := func(ds []dstate) string {
+		var sb strings.Builder
+		for _, d := range ds {
+			sb.WriteString(d.key())
+			sb.WriteByte('|')
+		}
+		return sb.String()
+	}
+	first := node{parent: -1}
+	for _, a := range ps {
+		first.d = append(first.d, a.start())
+	}
+	nodes := []node{first}
+	seen := map[string]bool{keyOf(first.d): true}
+	const limit = 400000
+	for i := 0; i < len(nodes); i++ {
+		n := nodes[i]
+		all := true
+		for k, a := range ps {
+			if !a.accepts(n.d[k]) {
+				all = false
+				break
+			}
+		}
+		if all {
+			var rs []rune
+			for j := i; nodes[j].parent >= 0; j = nodes[j].parent {
+				rs = append(rs, nodes[j].via)
+			}
+			for l, r := 0, len(rs)-1; l < r; l, r = l+1, r-1 {
+				rs[l], rs[r] = rs[r], rs[l]
+			}
+			return true, string(rs), ""
+		}
+		for _, c := range alpha {
+			nd := make([]dstate, len(ps))
+			dead := false
+			for k, a := range ps {
+				nd[k] = a.step(n.d[k], c)
+				if a.dead(nd[k]) {
+					dead = true
+					break
+				}
+			}
+			if dead {
+				continue
+			}
+			k := keyOf(nd)
+			if seen[k] {
+				continue
+			}
+			seen[k] = true
+			nodes = append(nodes, node{d: nd, parent: i, via: c})
+			if len(nodes) > limit {
+				return false, "", fmt.Sprintf("more than %d product states", limit)
+			}
+		}
+	}
+	return false, "", ""
+}
